@@ -619,6 +619,27 @@ func idemKey(c FmtCase, out1, out2 string) string {
 	if out2 == "" {
 		return ""
 	}
+	broad := idemKeyBySignature(c, out1, out2)
+	if broad == "" {
+		return ""
+	}
+	// (1) the difference sits where the finding says it does
+	if k := idemKeyPositional(c, out1, out2); k != "" {
+		return k
+	}
+	// (2) knock-on differences (a re-indented token moves the line breaks behind it): the finding is taken to
+	// be the cause only if the same program without the three unstable features formats stably
+	if h, ok := withoutUnstableFeatures(c); ok {
+		if _, err := parseVCL(h.Src); err == nil && !c14Holds(h.Src, h.Conf) {
+			return ""
+		}
+	}
+	return broad
+}
+
+// idemKeyBySignature: feature predicate on the case ∧ signature predicate on the pair of outputs
+// (necessary for every attribution; idemKey narrows it further).
+func idemKeyBySignature(c FmtCase, out1, out2 string) string {
 	multiline := hasMultilineToken(c.Src)
 	if noWS(out1) == noWS(out2) {
 		// only white space (indentation, padding, line breaks, empty lines) differs
